@@ -10,7 +10,10 @@ NS = "EngineModel.Properties.C15TracksV2."
 LEAN_MODULES = ["Properties.C15TracksV2"]
 THEOREMS = [NS + t for t in [
     "v2t_C15_no_ub", "v2t_C15_invariant", "v2t_C15_empty", "v2t_C15_reachable_no_ub", "v2t_C15_setter_any_row",
-    "v2t_C15_slot_any_index", "v2t_C15_write_any_snapshot", "v2t_C15_stale_handle"]]
+    "v2t_C15_slot_any_index", "v2t_C15_write_any_snapshot", "v2t_C15_stale_handle_one_step", "v2t_C15_stale_handle",
+    "v2t_C15_stale_handle_reachable", "v2t_C15_duration_overflow_counterexample", "v2t_C15_guarded_step",
+    "v2t_C15_guarded_reachable_no_ub", "v2t_C15_sites", "v2t_C15_all_calls_no_ub",
+    "v2t_C15_guard_dropped_counterexample"]]
 ASSUMPTIONS = [
     "tracks 2.x: the model (EngineModel/TracksV2, tied by C01/C06 and again here) makes these undefined-behaviour "
     "sources explicit: vector index in hot_cue_at / set_hot_cue_at / loop_at / set_loop_at and in the waveform "
@@ -71,8 +74,12 @@ def adversarial(rng, tier, uid, live):
         if rng.random() < 0.5:
             return "update %s %s" % (t, G.fmt_snapshot(s))
         return "mktrack tn%d %s" % (uid, G.fmt_snapshot(s))
-    if k < 0.96:
+    if k < 0.90:
         return "get %s %s" % (t, rng.choice(["valid", "id", "copy"]))
+    if k < 0.96:
+        return rng.choice(K.DB_CONST + ["db.q tracks", "db.q track_by_id %d" % rng.choice([0, -1, 1, 2, 3, 999, 2 ** 40]),
+                                        "db.q tracks_by_path " + K.hexs(rng.choice([b"", b"lib/ta1.mp3", b"nope", b"x" * 300])),
+                                        "c15.handles - %s" % t, "db.q tracks"])
     v = rng.choice(["ta", "tb", "tx"])
     if v in live and len(live) < 2:
         v = "tx"            # keep one live track; removing a removed track again is a call of its own
@@ -106,6 +113,8 @@ def opkey(l):
     t = l.split()
     if t[0] in ("get", "set") and len(t) > 2:
         return "%s %s" % (t[0], t[2])
+    if t[0] == "db.q":
+        return "db.q " + t[1]
     return t[0]
 
 
@@ -121,7 +130,7 @@ def tie(ctx):
             hid += 1
             scripts.append(gen_script(rng, ctx.tier, s, hid, nadv))
     res = K.run_pair(scripts)
-    j = K.judge(res, "tracks_v2", "v2", lambda s: PREFIX, stale_of, opkey)
+    j = K.judge(res, "tracks_v2", "v2", lambda s: PREFIX, stale_of, opkey, defined_only=K.const_query)
     return {"ok": j["ok"], "evaluations": j["evaluations"],
             "distinct_nontrivial": j["distinct"],
             "rule": "tracks 2.x: scripts of %d adversarial calls (slot accessors at -1..9 and INT_MIN/INT_MAX, 0..12 slots, "
